@@ -123,6 +123,8 @@ Theorem copen_inv src retain c can_remove ft part st n :
   0 < c -> cinv src st -> cinv src (fst (copen src retain c can_remove ft part st n)).
 Proof.
   intros Hc I. unfold copen.
+  destruct (negb (mem_str n (cs_info st)) && match ft with FSrcOpen => true | _ => false end);
+    [cbn [fst]; rewrite (cstate_eta st) in I; eapply cinv_ext; exact I|].
   set (st0 := if mem_str n (cs_info st) then st else _).
   assert (I0 : cinv src st0).
   { subst st0. destruct (mem_str n (cs_info st)); [exact I|]. intros m d; simpl; apply I. }
@@ -131,7 +133,7 @@ Proof.
   destruct (if mem_str n (cs_incomplete st0) then None else clookup (cs_cache st0) n) eqn:L; [exact I0|].
   rewrite (cstate_eta st0) in I0.
   destruct (retain n); cbn [negb fst]; [|eapply cinv_ext; exact I0].
-  assert (Generic : forall ft', (match ft' with FMkdir | FCreate => False | _ => True end) ->
+  assert (Generic : forall ft', (match ft' with FMkdir | FCreate | FSrcOpen => False | _ => True end) ->
     cinv src (fst (let '(written, complete, nreads) := copy_loop (chunked c data) 0 ft' part [] in
       let st2 := mkC (cs_cache st0) (cs_incomplete st0) (cs_info st0) (log_reads n nreads (ESrcOpen n :: cs_log st0)) in
       let ok := complete && match ft' with FClose => false | _ => true end in
@@ -169,6 +171,8 @@ Theorem copen_serves_source src retain c can_remove ft part st n d :
   snd (copen src retain c can_remove ft part st n) = Served d -> slookup src n = Some (SFile d).
 Proof.
   intros Hc I. unfold copen.
+  destruct (negb (mem_str n (cs_info st)) && match ft with FSrcOpen => true | _ => false end);
+    [cbn [snd]; discriminate|].
   set (st0 := if mem_str n (cs_info st) then st else _).
   assert (I0 : cinv src st0).
   { subst st0. destruct (mem_str n (cs_info st)); [exact I|]. intros m x; simpl; apply I. }
@@ -229,6 +233,8 @@ Lemma copen_agree src retain c can_remove ft part st n m :
   str_eqb n m = false -> agree_on m st (fst (copen src retain c can_remove ft part st n)).
 Proof.
   intros Hnm. unfold copen.
+  destruct (negb (mem_str n (cs_info st)) && match ft with FSrcOpen => true | _ => false end);
+    [cbn [fst]; repeat split; auto|].
   set (st0 := if mem_str n (cs_info st) then st else _).
   assert (A0 : agree_on m st st0).
   { subst st0. destruct (mem_str n (cs_info st)); [apply agree_refl|].
@@ -256,7 +262,7 @@ Theorem open_settles src retain c can_remove st n d :
   snd (copen src retain c can_remove FNone 0 st n) = Served d ->
   settled (fst (copen src retain c can_remove FNone 0 st n)) n.
 Proof.
-  intros Hc Hr. unfold copen.
+  intros Hc Hr. unfold copen. rewrite andb_false_r.
   set (st0 := if mem_str n (cs_info st) then st else _).
   assert (Hi0 : slookup src n <> None -> mem_str n (cs_info st0) = true).
   { subst st0. destruct (mem_str n (cs_info st)) eqn:E; [intros _; exact E|]. simpl.
